@@ -249,7 +249,7 @@ def run_rt(ctx, prop, n_quick, n_thorough, gen_opts=None, with_edits=True):
         for f in case.get("features", []) + (["lattice-fill-array"] if case["meta"].get("fill_arrays") else []):
             dist["features"][f] = dist["features"].get(f, 0) + 1
     # ---- correspondence of the tree layer on a share of the cases
-    share = cases[: n_corpus + max(10, n // 4)]
+    share = cases[: n_corpus + min(max(10, n // 4), 150 if ctx.tier == "quick" else 600)]
     corr = [(c, p) for c, p, _ in share]
     if prop == "C19":
         # hypothesis Lossless_on P g1 of C19_generation_fixed_point: the files MontePy WROTE (edited problems)
